@@ -110,7 +110,7 @@ BINDINGS = {
     ],
     ('ili_statuses', '<row produced when>'): [
         ('INSERT',),
-        ('INSERT OR IGNORE', "over sorted(set(gen[each(list(expr:_ili.load(source))).status?='active' over list(expr:_ili.load(source))]))"),
+        ('INSERT OR IGNORE', "over sorted(set[each(list(expr:_ili.load(source))).status?='active' over list(expr:_ili.load(source))])"),
     ],
     ('ili_statuses', 'rowid'): [
         ('INSERT', 'null'),
@@ -268,7 +268,7 @@ BINDINGS = {
         ('INSERT', 'synsets', 'Synset.id', 'lexid'),
     ],
     ('relation_types', '<row produced when>'): [
-        ('INSERT OR IGNORE', 'over sorted(set(gen[Relation.relType over Lexicon|LexiconExtension.synsets?=[] , Synset.relations?=[]]))'),
+        ('INSERT OR IGNORE', 'over sorted(set[Relation.relType over Lexicon|LexiconExtension.synsets?=[] , Synset.relations?=[]])'),
     ],
     ('relation_types', 'rowid'): [
         ('INSERT OR IGNORE', 'null'),
